@@ -175,19 +175,20 @@ func WithContext(ctx context.Context) Option {
 func mapReduceWithPanicChan(source <-chan any, panicChan *onceChan, mapper MapperFunc, reducer ReducerFunc, opts ...Option) (any, error) {
 	options := buildOptions(opts...)
 
-	// out 用于写入最终结果
+	// out 用于写入最终结果；它从不关闭（关闭会与聚合者的写入竞争），结束以 done 为准
 	output := make(chan any)
-	defer func() {
-		// 聚合只允许写入一次，否则 panic
-		for range output {
-			panic("多次写入聚合器")
-		}
-	}()
-
 	// collector 用于采集加工的数据，并在聚合器中消费
 	collector := make(chan any, options.workers)
 	// done 通道一旦关闭，所有加工者和聚合者都应停止工作
 	done := make(chan lang.PlaceholderType)
+	defer func() {
+		// 聚合只允许写入一次，否则 panic
+		select {
+		case <-output:
+			panic("多次写入聚合器")
+		case <-done:
+		}
+	}()
 	writer := newGuardedWriter(options.ctx, output, done)
 	var closeOnce sync.Once
 	// 使用 atomic.Value 以避免数据竞争
@@ -195,7 +196,6 @@ func mapReduceWithPanicChan(source <-chan any, panicChan *onceChan, mapper Mappe
 	finish := func() {
 		closeOnce.Do(func() {
 			close(done)
-			close(output)
 		})
 	}
 	cancel := once(func(err error) {
@@ -240,18 +240,28 @@ func mapReduceWithPanicChan(source <-chan any, panicChan *onceChan, mapper Mappe
 		cancel(context.DeadlineExceeded)
 		return nil, context.DeadlineExceeded
 	case v := <-panicChan.channel:
-		// 在此排出输出通道，否则会引发 defer 中的 panic 死循环
-		drain(output)
+		// 在此等待结束并丢弃输出，否则会引发 defer 中的 panic
+		for {
+			select {
+			case <-output:
+				continue
+			case <-done:
+			}
+			break
+		}
 		panic(v)
-	case v, ok := <-output:
+	case v := <-output:
 		panicChan.rethrow()
 		if err := retErr.Load(); err != nil {
 			return nil, err
-		} else if ok {
-			return v, nil
-		} else {
-			return nil, ErrReduceNoOutput
 		}
+		return v, nil
+	case <-done:
+		panicChan.rethrow()
+		if err := retErr.Load(); err != nil {
+			return nil, err
+		}
+		return nil, ErrReduceNoOutput
 	}
 }
 
@@ -390,6 +400,11 @@ func (w guardedWriter) Write(v any) {
 	case <-w.done:
 		return
 	default:
-		w.channel <- v
+	}
+
+	select {
+	case <-w.ctx.Done():
+	case <-w.done:
+	case w.channel <- v:
 	}
 }
